@@ -114,6 +114,30 @@ def gen_upsampling(rng):
     return img, [fr]
 
 
+def gen_features(rng):
+    """noise (seeded per group) and splines over several groups, sometimes with patches from a reference-only frame"""
+    w, h = rng.choice([(140, 40), (40, 140), (130, 129), (264, 30)])
+    img = _img(rng, w, h, 8, False, 0)
+    lut, sp = pl.gen_features(rng, w, h, noise=rng.random() < 0.8, splines=rng.random() < 0.6)
+    fr = {"gshift": 0, "chans": _chans(rng, w, h, 8, 3), "tr": _transforms(rng, False, 3), "pals": [],
+          "tree": _tree(rng, 8, 3), "wp": None}
+    if lut:
+        fr["noise"] = lut
+    if sp:
+        fr["splines"] = sp
+    frames = [fr]
+    if rng.random() < 0.4:
+        rw, rh = rng.randint(4, 40), rng.randint(4, 40)
+        ref = {"ty": 2, "gshift": 1, "have_crop": True, "w": rw, "h": rh, "is_last": False, "save_ref": 1, "sbct": True,
+               "chans": _chans(rng, rw, rh, 8, 3), "tr": [], "pals": [], "tree": ("L", 0, 0, 0, 1), "wp": None}
+        pw, ph = rng.randint(1, rw), rng.randint(1, rh)
+        fr["patches"] = [{"ref": 1, "x0": rng.randint(0, rw - pw), "y0": rng.randint(0, rh - ph), "w": pw, "h": ph,
+                          "targets": [{"x": rng.randint(0, w - 1) if k == 0 else rng.randint(-pw, w), "y": rng.randint(0, h - 1) if k == 0 else rng.randint(-ph, h),
+                                       "blend": [(rng.choice([1, 2, 3]), 0, False)]} for k in range(rng.randint(1, 4))]}]
+        frames = [ref, fr]
+    return img, frames
+
+
 def gen_multiframe(rng, anim):
     w, h = rng.choice([(140, 40), (130, 30), (40, 140), (129, 129), (64, 64), (200, 20), (33, 17)])
     bits = rng.choice([8, 8, 10, 12, 16])
@@ -167,6 +191,8 @@ def make_cases(ctx):
         cases.append(("filters", *gen_filters(rng)))
     for _ in range(n(2, 16)):
         cases.append(("upsampling", *gen_upsampling(rng)))
+    for _ in range(n(4, 40)):
+        cases.append(("noise-splines-patches", *gen_features(rng)))
     for _ in range(n(7, 70)):
         img, fr = pl.gen_modular_image(rng)
         cases.append(("single-section", img, fr))
